@@ -16,7 +16,11 @@
 (*   flags subset of {"signature_only", "allow_missing", "message_hash"}    *)
 (*         as a sequence of strings                                         *)
 (*   sigtext  text given to hash transaction --signature ("" = none)        *)
-(*   chan  "file" | "stdin" | "arg" | "none": where the input comes from    *)
+(*   chan  "file" | "stdin" | "fifo" | "devstdin" | "arg" | "none": where   *)
+(*         the input comes from: a regular file, standard input ("-"), a    *)
+(*         named pipe given as a path, the path /dev/stdin, the argument    *)
+(*         itself.  The input is the bytes readable there, whatever the     *)
+(*         kind of file: no stage below depends on chan                     *)
 (*   inp   the input: [doc |-> AST] for JSON documents, [hex |-> "..."] for *)
 (*         raw bytes, [arg |-> text] for `sign raw`                         *)
 (*                                                                         *)
@@ -49,7 +53,8 @@ EnvOf(cmd) ==
   LET used == {i \in 1..4 : cmd.acct[OptOrder[i]].src = "env"}
   IN  [nm \in {OptNames[OptOrder[i]][2] : i \in used} |->
          cmd.acct[OptOrder[CHOOSE i \in used : OptNames[OptOrder[i]][2] = nm]].v]
-InputArg(cmd) == IF cmd.chan = "file" THEN <<"@F:in">> ELSE IF cmd.chan = "stdin" THEN <<"-">>
+InputArg(cmd) == IF cmd.chan \in {"file", "fifo"} THEN <<"@F:in">> ELSE IF cmd.chan = "stdin" THEN <<"-">>
+                 ELSE IF cmd.chan = "devstdin" THEN <<"/dev/stdin">>
                  ELSE IF cmd.chan = "arg" THEN <<cmd.inp.arg>> ELSE <<>>
 Argv(cmd) ==
   IF cmd.sub \in {"address", "export", "public-key"} THEN <<cmd.sub>> \o AcctArgv(cmd)
